@@ -85,7 +85,7 @@ def decision_facts(c):
         if d.rel != "lt":
             continue
         raw = alg.P(d.b) - alg.P(d.a)            # fact: raw > 0 (val) or raw <= 0 (not val)
-        for p in (raw, alg.nf(raw)):
+        for p in [raw] + list(alg._alt_forms(alg.nf(raw))):
             e = p if d.val else -p                # fact: e > 0 or e >= 0
             const = _const_term(e)
             rest = e - alg.const(const)
